@@ -38,7 +38,8 @@ def required_cells(tier):
            "cutoff:gaussian": 1, "n>K": 2, "K>=N": 1, "tau:None": 2,
            "tau:0": 1, "tau:finite": 1, "tau:inf": 1, "basis:rotated": 2,
            "degenerate_o": 1, "unique": 2, "api:tempo": 3, "api:pt": 3,
-           "modes": 2, "modes:lindblad": 1, "custom_j": 1}
+           "modes": 2, "modes:lindblad": 1, "custom_j": 1,
+           "long-times": 3}
     return req
 
 
@@ -94,6 +95,18 @@ def _gen_commuting(case):
     nsteps = int(rng.integers(3, 9 if quick else 12))
     if d == 4:
         nsteps = min(nsteps, 6)
+    long_times = bool(i % 16 in (5, 12))
+    if long_times:
+        # long times: cutoff*t up to ~200 (strongly oscillating frequency
+        # integrands); the closed form is exact for any time step
+        dt = float(rng.choice([1.0, 2.0, 4.0]))
+        nsteps = int(rng.integers(3, 6))
+        p["cutoff"] = float(rng.uniform(4.0, 10.0))
+        if p["cutoff_type"] != "hard":
+            # the library integrates the tail [cutoff, inf) with scipy's
+            # infinite-range rule, which degrades for cutoff*t >~ 150 (open
+            # finding inf-tail-quad-glitch of C12): stay below 100 there
+            dt = min(dt, 100.0 / (p["cutoff"] * (nsteps + 1)))
     kchoice = i % 5
     if kchoice == 0:
         kmax = None
@@ -116,6 +129,7 @@ def _gen_commuting(case):
     use_tcut = bool(kmax is not None and i % 4 == 2)
     skind = ["mixed", "pure", "rankdef"][i % 3]
     return dict(rng=rng, p=p, custom=custom, d=d, energies=energies, o=o,
+                long_times=long_times,
                 vkind=vkind, dt=dt, nsteps=nsteps, kmax=kmax, tau=tau,
                 epsrel=epsrel, unique=unique, api=api, use_tcut=use_tcut,
                 skind=skind)
@@ -245,6 +259,8 @@ def run_commuting(case):
         cells.append("unique")
     if g["custom"]:
         cells.append("custom_j")
+    if g["long_times"]:
+        cells.append("long-times")
     if rescaled:
         cells.append("rescaled_to_conditioning_guard")
     sig = ("comm", d, p["cutoff_type"], p["temperature"] == 0, kclass, tclass,
